@@ -207,9 +207,10 @@ Qed.
 (* ------------------------------------------------------------------ the request line *)
 Lemma u8_status_line r :
   forallb tchar (c_method r) = true -> is_ascii (c_target r) = true ->
-  u8 (status_line r) = map upper (c_method r) ++ [32] ++ c_target r ++ [32] ++ version_str (c_v11 r).
+  u8 (status_line r) = map upper (c_method r) ++ 32 :: c_target r ++ 32 :: version_str (c_v11 r).
 Proof.
-  intros Hm Ht. apply u8_ascii. unfold status_line. rewrite !forallb_app.
+  intros Hm Ht. change (map upper (c_method r) ++ 32 :: c_target r ++ 32 :: version_str (c_v11 r)) with (status_line r).
+  apply u8_ascii. unfold status_line. rewrite !forallb_app.
   rewrite (tok_ascii _ (tok_upper _ Hm)). unfold is_ascii in Ht. rewrite Ht.
   destruct (c_v11 r); reflexivity.
 Qed.
@@ -263,8 +264,8 @@ Proof.
   unfold valid. intros Hv Hsafe.
   repeat (apply andb_true_iff in Hv as [Hv ?]).
   rename H into Hlim, H0 into Hframe, H1 into Hhost, H2 into Hws, H3 into Hupg, H4 into Hdup, H5 into Hnames,
-         H6 into Hne, H7 into Hforb, H8 into Hasc, H9 into Hslash, H10 into Hconn.
-  destruct (ascii_tok_parts _ Hv) as [Hmne Hmtok].
+         H6 into Hne, H7 into Hforb, H8 into Hasc, H9 into Hslash, H10 into Hconn, H11 into Hmtok.
+  assert (Hmne : c_method r <> []) by (destruct (c_method r); [discriminate|discriminate]).
   apply negb_true_iff in Hupg, Hws, Hforb, Hconn.
   rewrite (u8_status_line r Hmtok Hasc).
   assert (HMtok : forallb tchar (map upper (c_method r)) = true) by (apply tok_upper; exact Hmtok).
@@ -273,7 +274,7 @@ Proof.
   assert (Ht32 : ~ In 32 (c_target r)).
   { intro Hin. assert (target_forbidden 32 = true) by reflexivity.
     pose proof (existsb_false_In _ _ _ Hforb Hin). congruence. }
-  cbn [app]. rewrite split_first_clean by exact Ht32.
+  rewrite split_first_clean by exact Ht32.
   assert (HMne : nonempty (map upper (c_method r)) = true) by (destruct (c_method r); [congruence|reflexivity]).
   rewrite HMne, HMtok. cbn [andb negb]. rewrite map_upper_idem.
   rewrite parse_version_str.
